@@ -53,7 +53,7 @@ func run(c *hx.Ctx) error {
 	for i := 0; i < c.N(500, 6000); i++ {
 		cases = append(cases, &tcase{p: genGrammar(c.R, i%5 == 4), stream: "grammar"})
 	}
-	every := c.N(96, 6)
+	every := c.N(96, 12)
 	off := int(c.Seed % uint64(every))
 	for i, p := range exhaustivePrograms() {
 		cases = append(cases, &tcase{p: p, stream: "exhaustive", noGc: i%every != off})
